@@ -468,10 +468,40 @@ def measured_times():
         return {}
 
 
+NOT_RUN = []
+
+
+def thorough_times():
+    p = os.path.join(CONTRACTS, "thorough_times.json")
+    try:
+        return json.load(open(p))
+    except Exception:
+        return {}
+
+
+def thorough_feasible(u):
+    if u["engine"] != "kani" or u.get("expect") == "fail" or u.get("core"):
+        return True
+    t = measured_times().get(u["name"])
+    if t is not None and t < 9999:
+        return True
+    tt = thorough_times().get(u["name"])
+    return bool(tt and tt.get("finished"))
+
+
 def select_units(cat, prop, tier, only=None):
     us = _select_units(cat, prop, tier, only)
-    if tier != "quick" or only or os.environ.get("VERIF_NO_TIME_FILTER"):
+    if only or os.environ.get("VERIF_NO_TIME_FILTER"):
         return us
+    if tier != "quick":
+        # thorough tier = every obligation of the property that is known to finish (any verdict)
+        # within the thorough per-obligation limits on the reference machine; the ones that never
+        # finished there (time or memory) are reported as not run, not as undecided
+        keep, skipped = [], []
+        for u in us:
+            (keep if thorough_feasible(u) else skipped).append(u)
+        NOT_RUN[:] = [u["name"] for u in skipped]
+        return keep
     # quick tier = the obligations that are known (measured) to be cheap, most important first,
     # within a CPU budget; everything else of the property runs in the thorough tier
     times = measured_times()
@@ -545,6 +575,9 @@ def check(prop, tier, only=None, keep=False):
     if not units:
         print("no obligations registered for %s at tier %s" % (prop, tier))
         return 2
+    if NOT_RUN:
+        print("[check] %d registered obligation(s) not run in this tier (never finished within the thorough limits on the "
+              "reference machine): %s" % (len(NOT_RUN), ", ".join(NOT_RUN)))
     findings = load_findings()
     # a listed finding is identified by its id; an obligation that re-confirms it may also run under
     # another property's tier
@@ -816,6 +849,8 @@ def write_evidence(cat, prop, tier, seed, units, ev_units, violations, undecided
         samples=samples,
         units=ev_units,
         undecided=[dict(obligation=u["name"], reason=(w if isinstance(w, str) else str(w))[:800]) for u, w in undecided],
+        not_run=[dict(obligation=n, reason="registered for this property but never finished within the thorough limits "
+                      "(1800 s, 16 GB per obligation) on the reference machine; not run, not counted") for n in NOT_RUN],
     )
     ev = dict(property_id=prop, tier=tier, seed=seed, level=info["level"], coverage=cov,
               assumptions=assumptions + info.get("assumptions", []), wall_s=round(wall, 1), violations=len(violations))
